@@ -88,6 +88,8 @@ type handle struct {
 	unreg      dials.UnregisterCBFunc
 	unregOK    int // step at which unregister returned true
 	behaviour  string
+	stalled    bool
+	stall      time.Duration
 }
 
 type srcState struct {
@@ -182,6 +184,8 @@ type Run struct {
 	clients           int
 	finished          int
 	maxQueue          int
+	queueOffset       int
+	queueSeries       []queuePoint
 	cbSeen            int
 	addrDone          int
 	regions           map[int][]region
@@ -444,6 +448,8 @@ func (r *Run) spawn(c *ClientSpec) {
 			r.enabler(c)
 		case "canceller":
 			r.canceller(c)
+		case "stopper":
+			r.stopper(c)
 		case "blank":
 			r.blankClient(c)
 		case "mutator":
@@ -587,6 +593,19 @@ func (r *Run) userCB(h *handle) dials.NewConfigHandler[CfgCore] {
 		switch h.behaviour {
 		case "slow":
 			simrt.Sleep(50 * time.Millisecond)
+		case "stall":
+			// returns only once everything else has gone quiet: the queue
+			// behind it fills up (and overflows in long runs)
+			// (first invocation of the handle only, so the backlog drains afterwards)
+			if !h.stalled {
+				h.stalled = true
+				d := time.Second
+				if h.stall > 0 {
+					d = h.stall
+				}
+				simrt.SleepIdle(d)
+				r.probe("callback-stalled-until-idle")
+			}
 		case "reentrant":
 			cfg, _ := r.d.ViewVersion()
 			_ = cfg
@@ -651,7 +670,7 @@ func (r *Run) registrar(c *ClientSpec) {
 			zero = true
 			serStep = r.sim.Step()
 		case "register":
-			h = &handle{id: len(r.handles), client: c.Name, zero: zero, serialStep: serStep, behaviour: op.Str}
+			h = &handle{id: len(r.handles), client: c.Name, zero: zero, serialStep: serStep, behaviour: op.Str, stall: time.Duration(op.N) * time.Second}
 			h.serial, h.serialCfg = serialOf(ser)
 			r.handles = append(r.handles, h)
 			rec := r.begin(c, i, op)
@@ -691,6 +710,9 @@ func (r *Run) enabler(c *ClientSpec) {
 		switch op.K {
 		case "sleep":
 			simrt.Sleep(time.Duration(op.D))
+		case "await-backlog":
+			// enable behind a backlog of callback events (or once everybody else is done)
+			simrt.YieldWhen("await-backlog", func() bool { return r.queueNow() > 64 || r.finished >= r.clients-1 })
 		case "enable":
 			rec := r.begin(c, i, op)
 			ctx, cancel := r.opCtx(op, rec)
@@ -700,6 +722,29 @@ func (r *Run) enabler(c *ClientSpec) {
 			rec.Ok = err == nil
 			r.end(rec, err)
 			cancel()
+			if err == nil && r.queueNow() > 64 {
+				r.probe("enable-succeeded-behind-a-full-callback-queue")
+			}
+		}
+	}
+}
+
+// stopper cancels the Config context while the other clients are at work.
+func (r *Run) stopper(c *ClientSpec) {
+	for i := range c.Ops {
+		op := &c.Ops[i]
+		switch op.K {
+		case "sleep":
+			simrt.Sleep(time.Duration(op.D))
+		case "pause":
+			for n := 0; n < op.N; n++ {
+				simrt.Yield("pause")
+			}
+		case "cancel-config":
+			rec := r.begin(c, i, op)
+			r.cancel()
+			r.end(rec, nil)
+			r.probe("config-context-cancelled-mid-run")
 		}
 	}
 }
@@ -732,13 +777,27 @@ func (r *Run) canceller(c *ClientSpec) {
 
 func (r *Run) blankClient(c *ClientSpec) {
 	st := r.srcs[c.Src]
+	var lastInner *innerStatic
 	for i := range c.Ops {
 		op := &c.Ops[i]
 		switch op.K {
 		case "sleep":
 			simrt.Sleep(time.Duration(op.D))
 		case "setsource":
+			if op.Str == "retry" {
+				// the very same source object once more (typically after a failed attempt)
+				if lastInner == nil {
+					continue
+				}
+				op = &Op{K: op.K, Ctx: op.Ctx, D: op.D, Str: "retry", Part: lastInner.part}
+				r.probe("setsource-same-object-again")
+			}
 			inner := &innerStatic{r: r, st: st, part: op.Part, fail: op.Str == "fail"}
+			if op.Str == "retry" {
+				inner = lastInner
+			} else if op.Str != "fail" {
+				lastInner = inner
+			}
 			rec := r.begin(c, i, op)
 			ctx, cancel := r.opCtx(op, rec)
 			err := st.blank.SetSource(ctx, inner)
